@@ -69,10 +69,18 @@ def tag_ranges(text, tags, fns):
 def scan_trusted(text):
     """Mechanical scan for every assumption left in the generated file."""
     out = []
-    for n, ln in enumerate(text.split("\n"), 1):
+    all_lines = text.split("\n")
+    for n, ln in enumerate(all_lines, 1):
         s = ln.strip()
         if s.startswith("//"):
             continue
+        if s in ("#[verifier::external_body]", "#[verifier::exec_allows_no_decreases_clause]"):
+            # the attribute stands alone: name the item it is attached to
+            k = n
+            while k < len(all_lines) and (not all_lines[k].strip() or all_lines[k].strip().startswith("//")):
+                k += 1
+            if k < len(all_lines):
+                s = s + " " + all_lines[k].strip()
         if "assume_specification" in s:
             out.append(("assume_specification", n, s[:200]))
         elif "external_body" in s:
